@@ -1,0 +1,7 @@
+//go:build !verif
+
+package json
+
+import "context"
+
+func verifJSONGate(ctx context.Context, firstLine int) {}
